@@ -185,7 +185,32 @@ def _omit_default_round_trip(ctx):
     _omit_default_of_empty_factories(ctx)
 
 
+def _as_list_with_output_only_field(ctx):
+    """Known finding: name_mapping(as_list=True) numbers the positions by the index of the field in the shape at hand; a dataclass field
+    with init=False exists in the output shape only, so every later field is dumped one position further than it is loaded from."""
+    from dataclasses import field, make_dataclass  # noqa: PLC0415
+
+    from adaptix import Retort, name_mapping  # noqa: PLC0415
+
+    def post(self):
+        self.b = self.a * 100
+    M = make_dataclass("MAsList", [("a", int), ("b", int, field(init=False)), ("c", int)], namespace={"__post_init__": post})
+    Tail = make_dataclass("MAsListTail", [("a", int), ("c", int), ("b", int, field(init=False))], namespace={"__post_init__": post})
+    for cls, label in ((M, "output-only field in the middle"), (Tail, "output-only field last")):
+        for recipe_label, recipe in (("as_list", [name_mapping(cls, as_list=True)]), ("dict layout", [])):
+            r = Retort(recipe=recipe)
+            x = cls(1, 9)
+            d = attempt(r.dump, x)
+            back = attempt(r.load, d.value, cls) if d.kind == "ok" else d
+            ctx.evaluated(("as-list-output-only", label, recipe_label), nontrivial=True)
+            ctx.count("leg_any")
+            if back.kind != "ok" or back.value != x:
+                ctx.violation("value-changed:as_list:output-only-field-shifts-positions" if recipe_label == "as_list" and "middle" in label else "value-changed:output-only-field",
+                              f"{label}, {recipe_label}: {x!r} -> {d!r:.80} -> {back!r:.120}", {"case": label, "layout": recipe_label})
+
+
 DIRECTED = {
+    "as-list-with-output-only-field": _as_list_with_output_only_field,
     "omit-default-round-trip": _omit_default_round_trip,
     "all-scalars": _all_scalars,
     "sqlalchemy-json-falsy-documents": _falsy_documents,
